@@ -142,7 +142,7 @@ def raise_sites(man):
         ao, ac = body_after(vm, j)
         nat = records_before_unwind(texts(vm, ao, ac + 1))
     man["c17_raise_sites"] = {"throw_impl": throw, "try_handle_error": the, "call_native_err": nat}
-    return throw, the and nat, the != nat
+    return throw, the, nat
 
 
 def unquote(lit):
@@ -179,8 +179,9 @@ def trace_shape(man):
     vm = toks_of("vm.rs")
     o, c = fn_body(vm, "runtime_error")
     b = texts(vm, o, c + 1)
-    live_ip = find_sub(b, ["let", "ip", "=", "self", ".", "ip", ";"]) >= 0 and \
-        find_sub(b, [".", "store_error_ip_or", "(", "ip", ")", ";"]) >= 0
+    si = find_sub(b, [".", "store_error_ip_or", "("])
+    var = b[si + 3] if si >= 0 and b[si + 4] == ")" else None      # any variable name
+    live_ip = var is not None and find_sub(b, ["let", var, "=", "self", ".", "ip", ";"]) >= 0
     fi = find_sub(b, ["for", "frame", "in"])
     rev = False
     if fi >= 0:
@@ -260,7 +261,7 @@ def coq_str(s):
 
 def gen_unwindarms(man):
     rebase, clear = unwind_shape(man)
-    throw, fail, fail_mixed = raise_sites(man)
+    throw, fail_vm, fail_nat = raise_sites(man)
     live_ip, rev, minus1, prefers, tlits, mod_fmt = trace_shape(man)
     ufmt, exc, ctx, udesc = unhandled_shape(man)
     clits, cshape, emit_prev = error_at_shape(man)
@@ -274,8 +275,9 @@ def gen_unwindarms(man):
              "Definition unwind_rebases_error_ip_on_frame_drop : bool := %s." % coq_bool(rebase),
              "(* vm.rs fn throw_impl / fn try_handle_error + Err arm of fn call_native *)",
              "Definition throw_records_error_ip : bool := %s." % coq_bool(throw),
-             "Definition failure_records_error_ip : bool := %s." % coq_bool(fail),
-             "Definition failure_sites_disagree : bool := %s." % coq_bool(fail_mixed),
+             "Definition failure_records_error_ip_vm : bool := %s." % coq_bool(fail_vm),
+             "Definition failure_records_error_ip_native : bool := %s." % coq_bool(fail_nat),
+             "Definition failure_records_error_ip : bool := %s." % coq_bool(fail_vm and fail_nat),
              "(* vm.rs fn runtime_error, object.rs fn store_error_ip_or *)",
              "Definition trace_falls_back_to_live_ip : bool := %s." % coq_bool(live_ip),
              "Definition trace_innermost_first : bool := %s." % coq_bool(rev),
